@@ -317,7 +317,16 @@ class Domain:
             if isinstance(e, ast.Name) and e.id in self.nullable_params:
                 return True
         if isinstance(e, ast.IfExp):
-            return self.nullable(e.body, st) or self.nullable(e.orelse, st)
+            # X if X else d  /  X if X is not None else d  /  d if X is None else X: the arm that is X is taken only when X is there
+            t = e.test
+            def same(a, b):
+                return self.path(a) is not None and self.path(a) == self.path(b)
+            body_nn = same(t, e.body) or (isinstance(t, ast.Compare) and len(t.ops) == 1 and isinstance(t.ops[0], ast.IsNot) and isinstance(t.comparators[0], ast.Constant)
+                                          and t.comparators[0].value is None and same(t.left, e.body))
+            else_nn = (isinstance(t, ast.UnaryOp) and isinstance(t.op, ast.Not) and same(t.operand, e.orelse)) or \
+                      (isinstance(t, ast.Compare) and len(t.ops) == 1 and isinstance(t.ops[0], ast.Is) and isinstance(t.comparators[0], ast.Constant)
+                       and t.comparators[0].value is None and same(t.left, e.orelse))
+            return (False if body_nn else self.nullable(e.body, st)) or (False if else_nn else self.nullable(e.orelse, st))
         if isinstance(e, ast.BoolOp):
             if isinstance(e.op, ast.Or):
                 return self.nullable(e.values[-1], st)
